@@ -2,6 +2,7 @@ package goatlang
 
 import (
 	"fmt"
+	"strconv"
 	"strings"
 	"text/scanner"
 )
@@ -603,9 +604,16 @@ func negateNud(p *parser, t *token) *token {
 	// the sign is folded into the literal text only when the result is still a
 	// literal token.Int understands: a plain decimal that carries no sign yet.
 	// "- -5", "-(-5)", "-0x10" and "-010" are negated at run time instead
-	if (expr.Symbol == "(int)" || expr.Symbol == "(float64)") && (expr.Text == "0" || (expr.Text[0] >= '1' && expr.Text[0] <= '9')) {
+	if expr.Symbol == "(int)" && (expr.Text == "0" || (expr.Text[0] >= '1' && expr.Text[0] <= '9')) {
 		expr.Text = "-" + expr.Text
 		return expr
+	}
+	if expr.Symbol == "(float)" {
+		// a constant has no negative zero: -0.0 (like -0) is the constant 0. Only the
+		// run-time negation of a float64 variable that holds 0 yields the IEEE -0
+		if v, err := strconv.ParseFloat(expr.Text, 64); err == nil && v == 0 {
+			return expr
+		}
 	}
 	t.rename("negate")
 	t.Append(expr)
